@@ -10,9 +10,9 @@ observation, satisfies the clause for every state, caller, operation and oracle 
 clause that fires on the code is a disagreement with the statement *and* with the model, never
 an artefact of the clause.
 
-Proved here: C01 `denied_noeffect`, `effect_only_if_granted`, `list_exact`; C02 `reads`, `frame`, `delete_version`, `active` (and
+Proved here: C01 `denied_noeffect`, `effect_only_if_granted`, `list_exact`, `changes_only_granted`; C02 `reads`, `frame`, `delete_version`, `active`, `bytes_stable` (and
 `reads_total`, `failed_noop` in Properties/C02.lean); C04 `mem_eq_disk`, `savefail_noop`; C06 `recorded`, `before_effect`, `fail_closed`, `unchanged_silent`;
-C09 `cond` (under the store invariant).  Not yet proved of the model: C01 `changes_only_granted`; C02 `inv`, `put`, `bytes_stable`; C04 `gen_iff_saved`; C18 `acknowledged_bytes_kept`
+C09 `cond`; C18 `acknowledged_bytes_kept` (under the store invariant).  Not yet proved of the model: C02 `inv`, `put`; C04 `gen_iff_saved`
 (their content is stated as theorems about the model in the property files, in other words).
 -/
 namespace Setec.MonSound
@@ -369,5 +369,329 @@ theorem c02_active_sound (kv : KV) (c : Caller) (op : Op) (aok sok : Bool) (h : 
   | getCond n v => exact active_all kv c _ aok sok h (by intro n v; simp) (by intro n; simp)
   | put n v => exact active_all kv c _ aok sok h (by intro n v; simp) (by intro n; simp)
   | deleteVersion n v => exact active_all kv c _ aok sok h (by intro n v; simp) (by intro n; simp)
+
+theorem ungranted_noop (kv : KV) (c : Caller) (op : Op) (aok sok : Bool) (hl : op ≠ .list)
+    (hg : grantedStd c (actionOf op) (nameOf op) = false) : (step Cfg.std kv c op aok sok).1 = kv := by
+  rw [step_outcome kv c op aok sok hl]
+  simp only [outcome, hg]
+  split <;> simp
+
+theorem c01_changes_only_granted_sound (kv : KV) (c : Caller) (op : Op) (aok sok : Bool) (h : Inv kv) :
+    c01_changes_only_granted (obsOf kv c op aok sok) = true := by
+  by_cases hl : op = .list
+  · subst hl; simp [c01_changes_only_granted, obsOf]
+  · have hf : ∀ m, m ≠ nameOf op → (step Cfg.std kv c op aok sok).1.secrets[m]? = kv.secrets[m]? := fun m hm =>
+      step_frame Cfg.std kv c op aok sok m h (by rw [opName_eq_nameOf]; exact fun e => hm e.symm)
+    have key : ∀ (m : String), (step Cfg.std kv c op aok sok).1.secrets[m]? = kv.secrets[m]? ∨
+        granted c (actionOf op) m = true := by
+      intro m
+      by_cases hm : m = nameOf op
+      · by_cases hg : grantedStd c (actionOf op) (nameOf op) = true
+        · right; rw [hm]; exact hg
+        · left; rw [ungranted_noop kv c op aok sok hl (by simpa using hg)]
+      · left; exact hf m hm
+    have goal : (kv.secrets.toList.all (fun (p : String × Secret) =>
+          optSecEq (step Cfg.std kv c op aok sok).1.secrets[p.1]? (some p.2) || granted c (actionOf op) p.1) &&
+        (step Cfg.std kv c op aok sok).1.secrets.toList.all (fun (p : String × Secret) =>
+          optSecEq kv.secrets[p.1]? (some p.2) || granted c (actionOf op) p.1)) = true := by
+      simp only [Bool.and_eq_true, List.all_eq_true, Bool.or_eq_true]
+      constructor
+      · intro p hp
+        have hs := (ExtTreeMap.mem_toList_iff_getElem?_eq_some (t := kv.secrets) (k := p.1) (v := p.2)).mp hp
+        rcases key p.1 with e | g
+        · left; rw [e, hs]; exact optSecEq_self p.2
+        · right; exact g
+      · intro p hp
+        have hs := (ExtTreeMap.mem_toList_iff_getElem?_eq_some (t := (step Cfg.std kv c op aok sok).1.secrets) (k := p.1) (v := p.2)).mp hp
+        rcases key p.1 with e | g
+        · left; rw [← e, hs]; exact optSecEq_self p.2
+        · right; exact g
+    cases op with
+    | list => exact absurd rfl hl
+    | _ => simpa [c01_changes_only_granted, obsOf] using goal
+
+/-- failed calls change nothing (any caller, any fault script); re-exported as C02.failed_calls_noop -/
+theorem failed_calls_noop (kv : KV) (hinv : Inv kv) (c : Caller) (op : Op) (aok sok : Bool)
+    (herr : (step Cfg.std kv c op aok sok).2.1.isError = true) :
+    (step Cfg.std kv c op aok sok).1 = kv := by
+  cases op with
+  | list => simp only [step]; split <;> rfl
+  | info n => simp only [step]; split <;> (try split) <;> rfl
+  | get n => simp only [step]; split <;> (try split) <;> rfl
+  | getVersion n v => simp only [step]; split <;> (try split) <;> rfl
+  | getCond n v =>
+    simp only [step]
+    split
+    · rfl
+    · split
+      · rfl
+      · split
+        · rfl
+        · split <;> rfl
+  | put n v =>
+    simp only [step] at herr ⊢
+    split; · rfl
+    split; · rfl
+    split; · rfl
+    split
+    · next kv2 k2 hp => simp_all [Res.isError]
+    · next kv2 er hp => simp only; exact KV.put_error_noop _ kv n v sok er kv2 hinv hp
+  | activate n v =>
+    simp only [step] at herr ⊢
+    split; · rfl
+    split; · rfl
+    split; · rfl
+    split
+    · next kv2 hp => simp_all [Res.isError]
+    · next kv2 er hp => simp only; exact KV.setActive_error_noop kv n v sok er kv2 hp
+  | deleteVersion n v =>
+    simp only [step] at herr ⊢
+    split; · rfl
+    split; · rfl
+    split
+    · next kv2 hp => simp_all [Res.isError]
+    · next kv2 er hp => simp only; exact KV.deleteVersion_error_noop kv n v sok er kv2 hp
+  | delete n =>
+    simp only [step] at herr ⊢
+    split; · rfl
+    split; · rfl
+    split
+    · next kv2 hp => simp_all [Res.isError]
+    · next kv2 er hp => simp only; exact KV.deleteSecret_error_noop kv n sok er kv2 hp
+
+
+/-- what a mutation leaves of the versions a secret had: each is still there with its bytes,
+or gone - never other bytes -/
+theorem versions_stable (kv : KV) (op : Op) (sok : Bool) (h : Inv kv) (n : String) (s s' : Secret)
+    (hn : kv.secrets[n]? = some s) (h' : (kvPost Cfg.std kv op sok).secrets[n]? = some s')
+    (k : Nat) (b : Bytes) (hk : s.versions[k]? = some b) :
+    s'.versions[k]? = none ∨ s'.versions[k]? = some b := by
+  have same : kv.secrets[n]? = some s' → s'.versions[k]? = none ∨ s'.versions[k]? = some b := by
+    intro e; rw [hn] at e; cases e; exact Or.inr hk
+  cases op with
+  | put m val =>
+    simp only [kvPost, std_guardPresent] at h'
+    by_cases hmn : m = n
+    · subst hmn
+      cases sok with
+      | false => rw [put_savefail true kv m val h] at h'; exact same h'
+      | true =>
+        unfold put at h'
+        rw [hn] at h'
+        simp only at h'
+        split at h'
+        · exact same h'
+        · simp [save] at h'
+          subst h'
+          have hle : k ≤ s.latest := ((h m s hn).2 k (ExtTreeMap.mem_iff_isSome_getElem?.mpr (by simp [hk]))).2
+          right
+          simp only [putNewMutate]
+          rw [ExtTreeMap.getElem?_insert]
+          have : ¬ (compare (s.latest + 1) k = .eq) := by
+            simp; omega
+          simp [this, hk]
+    · rw [put_frame true kv m n val sok h hmn] at h'; exact same h'
+  | activate m v =>
+    simp only [kvPost] at h'
+    by_cases hmn : m = n
+    · subst hmn
+      cases hd : setActive kv m v sok with
+      | mk kv' r =>
+        rw [hd] at h'
+        cases r with
+        | error er => have := setActive_error_noop kv m v sok er kv' hd; subst this; exact same h'
+        | ok u =>
+          obtain ⟨s1, s2, h1, h2, _, _, hver, _⟩ := setActive_ok kv m v sok kv' hd
+          rw [hn] at h1; cases h1
+          simp only at h'
+          rw [h2] at h'; cases h'
+          right; rw [hver]; exact hk
+    · rw [setActive_frame kv m n v sok hmn] at h'; exact same h'
+  | deleteVersion m v =>
+    simp only [kvPost] at h'
+    by_cases hmn : m = n
+    · subst hmn
+      cases hd : deleteVersion kv m v sok with
+      | mk kv' r =>
+        rw [hd] at h'
+        cases r with
+        | error er => have := deleteVersion_error_noop kv m v sok er kv' hd; subst this; exact same h'
+        | ok u =>
+          obtain ⟨s1, s2, h1, h2, _, hver, _, _⟩ := deleteVersion_ok kv m v sok kv' hd
+          rw [hn] at h1; cases h1
+          simp only at h'
+          rw [h2] at h'; cases h'
+          rw [hver, ExtTreeMap.getElem?_erase]
+          by_cases hv : compare v k = .eq
+          · left; simp [hv]
+          · right; simp [hv, hk]
+    · rw [deleteVersion_frame kv m n v sok hmn] at h'; exact same h'
+  | delete m =>
+    simp only [kvPost] at h'
+    by_cases hmn : m = n
+    · subst hmn
+      cases hd : deleteSecret kv m sok with
+      | mk kv' r =>
+        rw [hd] at h'
+        cases r with
+        | error er => have := deleteSecret_error_noop kv m sok er kv' hd; subst this; exact same h'
+        | ok u =>
+          have := deleteSecret_gone kv m kv' sok hd
+          simp only at h'
+          rw [this] at h'; cases h'
+    · rw [deleteSecret_frame kv m n sok hmn] at h'; exact same h'
+  | _ => exact same h'
+/-- the same for the specification's step (which either leaves the state alone or performs the mutation) -/
+theorem step_versions_stable (kv : KV) (c : Caller) (op : Op) (aok sok : Bool) (h : Inv kv) (n : String) (s s' : Secret)
+    (hn : kv.secrets[n]? = some s) (h' : (step Cfg.std kv c op aok sok).1.secrets[n]? = some s')
+    (k : Nat) (b : Bytes) (hk : s.versions[k]? = some b) :
+    s'.versions[k]? = none ∨ s'.versions[k]? = some b := by
+  rcases step_state Cfg.std kv c op aok sok with e | e
+  · rw [e, hn] at h'; cases h'; exact Or.inr hk
+  · rw [e] at h'; exact versions_stable kv op sok h n s s' hn h' k b hk
+
+theorem stable_inner (kv : KV) (c : Caller) (op : Op) (aok sok : Bool) (h : Inv kv) (n : String) (s : Secret)
+    (hn : kv.secrets[n]? = some s) :
+    (match (step Cfg.std kv c op aok sok).1.secrets[n]? with
+     | some s' => s.versions.toList.all (fun (k, b) => s'.versions[k]? == none || s'.versions[k]? == some b)
+     | none => true) = true := by
+  cases h' : (step Cfg.std kv c op aok sok).1.secrets[n]? with
+  | none => rfl
+  | some s' =>
+    simp only [List.all_eq_true, Bool.or_eq_true, beq_iff_eq]
+    rintro ⟨k, b⟩ hkb
+    have hk := (ExtTreeMap.mem_toList_iff_getElem?_eq_some (t := s.versions) (k := k) (v := b)).mp hkb
+    exact step_versions_stable kv c op aok sok h n s s' hn h' k b hk
+
+theorem c02_bytes_stable_sound (kv : KV) (c : Caller) (op : Op) (aok sok : Bool) (h : Inv kv) :
+    c02_bytes_stable (obsOf kv c op aok sok) = true := by
+  simp only [c02_bytes_stable, obsOf, List.all_eq_true]
+  rintro ⟨n, s⟩ hp
+  have hn := (ExtTreeMap.mem_toList_iff_getElem?_eq_some (t := kv.secrets) (k := n) (v := s)).mp hp
+  have := stable_inner kv c op aok sok h n s hn
+  cases op with
+  | delete m =>
+    simp only
+    split
+    · rfl
+    · exact this
+  | _ => exact this
+
+/-- a mutation keeps every version of every secret with exactly its bytes, unless it is the
+deletion of that secret or of that very version -/
+theorem versions_kept (kv : KV) (op : Op) (sok : Bool) (h : Inv kv) (n : String) (s : Secret)
+    (hn : kv.secrets[n]? = some s) (k : Nat) (b : Bytes) (hk : s.versions[k]? = some b)
+    (hd1 : op ≠ .delete n) (hd2 : op ≠ .deleteVersion n k) :
+    ∃ s', (kvPost Cfg.std kv op sok).secrets[n]? = some s' ∧ s'.versions[k]? = some b := by
+  have same : ∃ s', kv.secrets[n]? = some s' ∧ s'.versions[k]? = some b := ⟨s, hn, hk⟩
+  cases op with
+  | put m val =>
+    simp only [kvPost, std_guardPresent]
+    by_cases hmn : m = n
+    · subst hmn
+      cases sok with
+      | false => rw [put_savefail true kv m val h]; exact same
+      | true =>
+        unfold put
+        rw [hn]
+        simp only
+        split
+        · exact same
+        · refine ⟨putNewMutate s val, by simp [save], ?_⟩
+          have hle : k ≤ s.latest := ((h m s hn).2 k (ExtTreeMap.mem_iff_isSome_getElem?.mpr (by simp [hk]))).2
+          simp only [putNewMutate]
+          rw [ExtTreeMap.getElem?_insert]
+          have : ¬ (compare (s.latest + 1) k = .eq) := by simp; omega
+          simp [this, hk]
+    · rw [put_frame true kv m n val sok h hmn]; exact same
+  | activate m v =>
+    simp only [kvPost]
+    by_cases hmn : m = n
+    · subst hmn
+      cases hd : setActive kv m v sok with
+      | mk kv' r =>
+        cases r with
+        | error er => have := setActive_error_noop kv m v sok er kv' hd; subst this; exact same
+        | ok u =>
+          obtain ⟨s1, s2, h1, h2, _, _, hver, _⟩ := setActive_ok kv m v sok kv' hd
+          rw [hn] at h1; cases h1
+          exact ⟨s2, h2, by rw [hver]; exact hk⟩
+    · rw [setActive_frame kv m n v sok hmn]; exact same
+  | deleteVersion m v =>
+    simp only [kvPost]
+    by_cases hmn : m = n
+    · subst hmn
+      have hvk : v ≠ k := fun e => hd2 (by rw [e])
+      cases hd : deleteVersion kv m v sok with
+      | mk kv' r =>
+        cases r with
+        | error er => have := deleteVersion_error_noop kv m v sok er kv' hd; subst this; exact same
+        | ok u =>
+          obtain ⟨s1, s2, h1, h2, _, hver, _, _⟩ := deleteVersion_ok kv m v sok kv' hd
+          rw [hn] at h1; cases h1
+          refine ⟨s2, h2, ?_⟩
+          rw [hver, ExtTreeMap.getElem?_erase]
+          have : ¬ (compare v k = .eq) := by simp; exact hvk
+          simp [this, hk]
+    · rw [deleteVersion_frame kv m n v sok hmn]; exact same
+  | delete m =>
+    simp only [kvPost]
+    have hmn : m ≠ n := fun e => hd1 (by rw [e])
+    rw [deleteSecret_frame kv m n sok hmn]; exact same
+  | _ => exact same
+
+theorem delete_res (kv : KV) (c : Caller) (n : String) (aok sok : Bool) :
+    (step Cfg.std kv c (.delete n) aok sok).2.1 = .done ∨ (step Cfg.std kv c (.delete n) aok sok).2.1.isError = true := by
+  rw [step_outcome kv c _ aok sok (by simp)]
+  simp only [outcome, exec]
+  split; · simp [Res.isError]
+  split; · simp [Res.isError]
+  split; · simp [Res.isError]
+  simp only []
+  split; · simp [Res.isError]
+  split
+  · simp
+  · rename_i er _; cases er <;> simp [kvErr, Res.isError]
+
+theorem deleteVersion_res (kv : KV) (c : Caller) (n : String) (v : Nat) (aok sok : Bool) :
+    (step Cfg.std kv c (.deleteVersion n v) aok sok).2.1 = .done ∨
+    (step Cfg.std kv c (.deleteVersion n v) aok sok).2.1.isError = true := by
+  rw [step_outcome kv c _ aok sok (by simp)]
+  simp only [outcome, exec]
+  split; · simp [Res.isError]
+  split; · simp [Res.isError]
+  split; · simp [Res.isError]
+  simp only []
+  split; · simp [Res.isError]
+  split
+  · simp
+  · rename_i er _; cases er <;> simp [kvErr, Res.isError]
+
+theorem c18_bytes_kept_sound (kv : KV) (c : Caller) (op : Op) (aok sok : Bool) (h : Inv kv) :
+    c18_bytes_kept (obsOf kv c op aok sok) = true := by
+  simp only [c18_bytes_kept, obsOf, List.all_eq_true]
+  rintro ⟨n, s⟩ hp ⟨k, b⟩ hkb
+  have hn := (ExtTreeMap.mem_toList_iff_getElem?_eq_some (t := kv.secrets) (k := n) (v := s)).mp hp
+  have hk := (ExtTreeMap.mem_toList_iff_getElem?_eq_some (t := s.versions) (k := k) (v := b)).mp hkb
+  -- an error changes nothing
+  by_cases herr : (step Cfg.std kv c op aok sok).2.1.isError = true
+  · have e := failed_calls_noop kv h c op aok sok herr
+    simp [e, hn, hk]
+  · by_cases hd1 : op = .delete n
+    · subst hd1
+      rcases delete_res kv c n aok sok with e | e
+      · simp [e]
+      · exact absurd e herr
+    · by_cases hd2 : op = .deleteVersion n k
+      · subst hd2
+        rcases deleteVersion_res kv c n k aok sok with e | e
+        · simp [e]
+        · exact absurd e herr
+      · have hpost : ∃ s', (step Cfg.std kv c op aok sok).1.secrets[n]? = some s' ∧ s'.versions[k]? = some b := by
+          rcases step_state Cfg.std kv c op aok sok with e | e
+          · rw [e]; exact ⟨s, hn, hk⟩
+          · rw [e]; exact versions_kept kv op sok h n s hn k b hk hd1 hd2
+        obtain ⟨s', h1, h2⟩ := hpost
+        simp [h1, h2]
 
 end Setec.MonSound
